@@ -7,5 +7,6 @@ func init() {
 		{"fork-only parent entries skipped", "vecfc/vector_ops.go", `if hisSeq\.Seq == 0 && !hisSeq\.IsForkDetected\(\) \{`, "if hisSeq.Seq == 0 {", "C06.collect"},
 		{"half-open overlap test", "vecengine/index.go", `MinSeq\(a\) <= myVecs\.before\.Seq\(b\)`, "MinSeq(a) < myVecs.before.Seq(b)", "C06.detect"},
 		{"per-branch vector returned although forks exist", "vecengine/index.go", `if vi\.AtLeastOneFork\(\) \{\n\t\tscatteredBefore`, "if !vi.AtLeastOneFork() {\n\t\tscatteredBefore", "C06.merge"},
+		{"flushed branch table kept by reference", "vecengine/index.go", `func \(vi \*Engine\) Flush\(\) \{\n\tif vi\.bi != nil \{\n\t\tvi\.setBranchesInfo\(vi\.bi\)\n`, "var lastFlushedBranches *BranchesInfo\n\nfunc (vi *Engine) Flush() {\n\tif vi.bi != nil {\n\t\tvi.setBranchesInfo(vi.bi)\n\t\tlastFlushedBranches = vi.bi\n", "no other retained object keeps storage of the live branch table"},
 	}
 }
